@@ -120,6 +120,34 @@ def rejected_ops(rng, ub, c):
         ("calc_ub:default", lambda: ub.calc_ub()),
         ("calc_ub:same-reference-twice", lambda: ub.calc_ub(1, 1)),
     ]
+    # every argument of the list editors, malformed in every way a caller gets wrong: too short, too long, scalar, None, text, short array
+    BAD3 = [(1, 1), (1, 1, 0, 2), 5, None, "ab", np.array([1.0, 2.0]), (), [1, 0, "x", 4], {"h": 1}]
+    for bi, bad in enumerate(BAD3):
+        lab = type(bad).__name__ + str(len(bad) if hasattr(bad, "__len__") else "")
+        for ix in (1, max(nr, 1), "a"):
+            ops.append((f"refl:edit-bad-hkl-{lab}", lambda bad=bad, ix=ix: ub.edit_reflection(ix, bad, pos, 10.0, "t")))
+        for ix in (1, max(no, 1), "a", "o"):
+            ops.append((f"orient:edit-bad-hkl-{lab}", lambda bad=bad, ix=ix: ub.edit_orientation(ix, bad, (1, 0, 0), pos, "t")))
+            ops.append((f"orient:edit-bad-xyz-{lab}", lambda bad=bad, ix=ix: ub.edit_orientation(ix, (1, 1, 0), bad, pos, "t")))
+            ops.append((f"orient:edit-bad-xyz-nopos-{lab}", lambda bad=bad, ix=ix: ub.edit_orientation(ix, (1, 1, 0), bad, None, "t")))
+        ops.append((f"refl:add-bad-hkl-{lab}", lambda bad=bad: ub.add_reflection(bad, pos, 10.0, "t")))
+        ops.append((f"orient:add-bad-hkl-{lab}", lambda bad=bad: ub.add_orientation(bad, (1, 0, 0), pos, "t")))
+        ops.append((f"orient:add-bad-xyz-{lab}", lambda bad=bad: ub.add_orientation((1, 0, 0), bad, pos, "t")))
+        ops.append((f"vector:n_hkl-{lab}", lambda bad=bad: setattr(ub, "n_hkl", bad)))
+        ops.append((f"vector:surf_nphi-{lab}", lambda bad=bad: setattr(ub, "surf_nphi", bad)))
+        ops.append((f"miscut:bad-axis-{lab}", lambda bad=bad: ub.set_miscut(bad, 3.0)))
+        ops.append((f"refine:bad-hkl-{lab}", lambda bad=bad: ub.refine_ub(bad, pos, 1.0, True, True)))
+    # bulk assignments whose bad entry is a name the class itself uses, or a value no float can hold
+    first = (three[0], True if three[0] in VOID else 2.0)
+    for nm in ("clear", "asdict", "astuple", "is_fully_constrained", "_mu", "_all", "constrained", "__class__", "", 5, None):
+        ops.append((f"cons:asdict-colliding-name-{nm!r}", lambda nm=nm: setattr(c, "asdict", {first[0]: first[1], nm: 1})))
+        ops.append((f"cons:astuple-colliding-name-{nm!r}", lambda nm=nm: setattr(c, "astuple", ((first[0], first[1]) if first[0] not in VOID else first[0], (nm, 1.0)))))
+        ops.append((f"cons:astuple-colliding-bare-{nm!r}", lambda nm=nm: setattr(c, "astuple", ((first[0], first[1]) if first[0] not in VOID else first[0], nm))))
+    for val, vl in ((10 ** 400, "huge-int"), (float("nan"), "nan"), (float("inf"), "inf"), (1j, "complex"), (None, "None"), (b"1", "bytes"), (np.array([1.0, 2.0]), "array2")):
+        ops.append((f"cons:set-{vl}", lambda val=val: setattr(c, valn, val)))
+        ops.append((f"cons:asdict-{vl}", lambda val=val: setattr(c, "asdict", {first[0]: first[1], valn: val})))
+        ops.append((f"cons:astuple-{vl}", lambda val=val: setattr(c, "astuple", ((first[0], first[1]) if first[0] not in VOID else first[0], (valn, val)))))
+        ops.append((f"lattice:{vl}", lambda val=val: ub.set_lattice("x", 4.0, val, 5.0)))
     return ops
 
 
@@ -170,7 +198,7 @@ def oracle(ctx, widen=1):
             ub, c = random_state(ctx.rng)
             ops = rejected_ops(ctx.rng, ub, c)
             ctx.rng.shuffle(ops)
-            ops = ops[:12]
+            ops = ops[:30]
         for label, thunk in ops:
             before = snapshot(ub, c)
             exc = None
